@@ -32,6 +32,9 @@ T = {
     'C04-1': ('C04', 'a withdraw cancels the queued announce using the WITHDRAW\'s attribute index instead of the queued route\'s', 'announce p med 50 then withdraw p with different non-empty attributes in one window', ['C04: bounded operation-sequences (outside the known-finding region: one attribute set per window)']),
     'C04-2': ('C04', 'announce queues snapshotted late in updates()', 'generator suspended after a withdraw, then withdraw p + announce p', ['C04: bounded operation-sequences (partial consumption points)']),
     'C04-3': ('C04', 'clear adj-rib-out drops the withdraw of a route whose re-announce is still queued', 'p sent, re-announced with new attributes, then clear in the same window', ['C04: bounded operation-sequences']),
+    'C17-1': ('C17', 'Neighbor.previous only linked when the neighbor definition is unchanged: routes removed by a reload that also changes a session parameter come back after the re-establishment', 'a reload that changes hold-time (re-establish) AND removes a route', ['C17: bounded reload-pairs']),
+    'C17-2': ('C17', 'a reused Adj-RIB-Out does not get its families refreshed: routes of a family added by the reload are never sent', 'a reload adding ipv6 unicast together with a route in it', ['C17: bounded reload-pairs (family-added pairs)']),
+    'C17-3': ('C17', 'removed neighbors are only looked for among active peers: a removed passive neighbor whose session is down keeps serving the old configuration', 'passive neighbor, session down at reload time, deleted by the new file', ['C17: bounded removed-neighbors (added after this seed was missed)']),
 }
 for sid, (pid, what, needs, caught) in T.items():
     d = os.path.join(ROOT, 'seeded', sid)
